@@ -68,31 +68,31 @@ Proof.
 Qed.
 Print Assumptions C18_mixed.
 
-(* DiskRevolve and PeriodicDiskRevolve: every N, every RAM count >= 1, every cost vector; budgets RAM = snapshots_in_ram, DISK unbounded.
+(* DiskRevolve and PeriodicDiskRevolve: the whole documented domain -- every N >= 1, snapshots_in_ram >= 0 (>= 1 when N >= 2), every cost vector; budgets RAM = snapshots_in_ram, DISK unbounded.
    The monitor's only possible verdict other than "no error" is E_leftover at the final EndReverse (class C04: the open finding
    D8, see C04_disk_revolve_refuted), so no error of THIS property's class is ever reported, and nothing raises *)
-Theorem C18_disk_revolve : forall (N ram disk uf ub wd rd : Z) (k : nat), 1 <= N -> 1 <= ram ->
+Theorem C18_disk_revolve : forall (N ram disk uf ub wd rd : Z) (k : nat), 1 <= N -> 0 <= ram -> (2 <= N -> 1 <= ram) ->
   exists o0 m ls, run_case (PRev RevConv.KDiskRevolve N ram disk uf ub wd rd) (DiskRun.disk_xparams N ram) (repeat Next k) = Ok (o0, m, ls) /\ no_err err_C18 m /\ no_raise ls.
 Proof.
-  intros N ram disk uf ub wd rd k H1 H2. destruct (DiskRun.disk_revolve_run N ram disk uf ub wd rd k H1 H2) as (o0 & m & ls & E & Hl & Hm).
+  intros N ram disk uf ub wd rd k H1 H2 H2'. destruct (DiskRun.disk_revolve_run N ram disk uf ub wd rd k H1 H2 H2') as (o0 & m & ls & E & Hl & Hm).
   exists o0, m, ls. split; [exact E|]. split; [apply (DiskRun.leftover_no_err _ m Hm); intros []|exact Hl].
 Qed.
 Print Assumptions C18_disk_revolve.
-Theorem C18_periodic_disk_revolve : forall (N ram disk uf ub wd rd : Z) (k : nat), 1 <= N -> 1 <= ram ->
+Theorem C18_periodic_disk_revolve : forall (N ram disk uf ub wd rd : Z) (k : nat), 1 <= N -> 0 <= ram -> (2 <= N -> 1 <= ram) ->
   exists o0 m ls, run_case (PRev RevConv.KPeriodic N ram disk uf ub wd rd) (DiskRun.disk_xparams N ram) (repeat Next k) = Ok (o0, m, ls) /\ no_err err_C18 m /\ no_raise ls.
 Proof.
-  intros N ram disk uf ub wd rd k H1 H2. destruct (DiskRun.periodic_run N ram disk uf ub wd rd k H1 H2) as (o0 & m & ls & E & Hl & Hm).
+  intros N ram disk uf ub wd rd k H1 H2 H2'. destruct (DiskRun.periodic_run N ram disk uf ub wd rd k H1 H2 H2') as (o0 & m & ls & E & Hl & Hm).
   exists o0, m, ls. split; [exact E|]. split; [apply (DiskRun.leftover_no_err _ m Hm); intros []|exact Hl].
 Qed.
 Print Assumptions C18_periodic_disk_revolve.
 
-(* HRevolve (two levels): every N, every RAM count >= 1, every disk count >= 0, every cost vector (the constructor's dynamic
+(* HRevolve (two levels): the whole documented domain -- every N >= 1, snapshots_in_ram >= 0 (>= 1 when N >= 2), snapshots_on_disk >= 0, every cost vector (the constructor's dynamic
    program and recursion are proved total: HRevTotal); budgets RAM = snapshots_in_ram, DISK unbounded (the DISK budget itself:
    C03_hrevolve_refuted).  As for DiskRevolve the only verdict other than "no error" is E_leftover at the final EndReverse (D8) *)
-Theorem C18_hrevolve : forall (N ram disk uf ub wd rd : Z) (k : nat), 1 <= N -> 1 <= ram -> 0 <= disk ->
+Theorem C18_hrevolve : forall (N ram disk uf ub wd rd : Z) (k : nat), 1 <= N -> 0 <= ram -> (2 <= N -> 1 <= ram) -> 0 <= disk ->
   exists o0 m ls, run_case (PRev RevConv.KHRevolve N ram disk uf ub wd rd) (DiskRun.disk_xparams N ram) (repeat Next k) = Ok (o0, m, ls) /\ no_err err_C18 m /\ no_raise ls.
 Proof.
-  intros N ram disk uf ub wd rd k H1 H2 H3. destruct (HRevTop.hrevolve_run_total N ram disk uf ub wd rd k H1 H2 H3) as (o0 & m & ls & E & Hl & Hm).
+  intros N ram disk uf ub wd rd k H1 H2 H2' H3. destruct (HRevTop.hrevolve_run_total N ram disk uf ub wd rd k H1 H2 H2' H3) as (o0 & m & ls & E & Hl & Hm).
   exists o0, m, ls. split; [exact E|]. split; [apply (DiskRun.leftover_no_err _ m Hm); intros []|exact Hl].
 Qed.
 Print Assumptions C18_hrevolve.
